@@ -47,3 +47,123 @@ Theorem C19_leak_check_never_fires : forall fresh body P min_args D args v h,
   exists fr fo v2 h2 v1 h1, body v1 h1 = (fr, fo, v2, h2) /\
     (alias_run fresh body P min_args args v h).1.1 = match fr with Some r => r | None => WContinue fo end.
 Proof. exact leak_check_never_fires. Qed.
+
+(* ===== confined_sound: the syntactic check is semantically sound (builder task B1) =================
+   Model: ScriptBody.v — eval_instructions (SdkErr.v, reused) over run_instruction (Runner.v, reused)
+   with bind_command_arguments (Expansion.v, reused), AliasCommand::run for nested script commands,
+   eval_condition / eval_with_instructions with the re-parse of utils/eval.rs (EvalSer.v, reused).
+   Native commands are universally quantified and constrained only by [frame_hyps] (one clause per
+   class of the check; each clause is validated against the real SDK on every run of the check). *)
+Require Import DS.Expansion DS.ExpansionSpec DS.EvalSer DS.Runner DS.SdkErr.
+Require Import DS.ScriptBody DS.ScriptBodyProof DS.ScriptBodyToy DS.ScriptBodyGen.
+
+(* every regenerated script passes the strengthened check: the old one, and on the instructions the
+   runner sees: output variables under the prefix; for-in variable a literal ($ % backslash free) name
+   under the prefix; commands from the tables, `unset` never called from a script, set_by_name only in
+   unset with exactly one "${name}" argument; conditions start with a value reference or with a
+   literal, command-shaped, permitted command word *)
+Theorem C19_scripts_strong : all_scripts_confined_s = true.
+Proof. exact gen_scripts_confined_s. Qed.
+Print Assumptions C19_scripts_strong.
+Theorem C19_table_ok : table_ok_s gen_table = true.
+Proof. exact gen_table_ok_s. Qed.
+Print Assumptions C19_table_ok.
+
+(* confined_sound, for ANY script table that passes the check and any body over it: run to the end
+   with the ghost flag down, the body changes no variable outside the reserved prefixes (unset: may
+   delete, never changes) and neither changes nor creates a variable outside its own prefix.
+   All fuels, all nesting depths, all variables, all native commands satisfying the frame clauses. *)
+Theorem C19_confined_sound :
+  forall (ustate : Type) (table : list sentry) (fresh : handles -> str)
+         (store_args : str -> list str -> ustate -> ustate) (drop_handle : str -> ustate -> ustate)
+         (set_ctx : str -> ustate -> str * ustate) (nexists : ustate -> str -> bool)
+         (ncmd : str -> list Runner.instr -> inv -> nat_t ustate)
+         (cond_pre : str -> list Runner.instr -> inv -> vmap -> handles -> ustate -> option result * vmap * handles * ustate)
+         (cond_post : str -> list Runner.instr -> inv -> option bool -> nat_t ustate),
+  frame_hyps ustate ncmd cond_pre cond_post -> table_ok table = true ->
+  forall fuel n scope body v h u r out v' h' u',
+  scope_in table scope -> forallb (iok table scope) body = true ->
+  script_body ustate table fresh store_args drop_handle set_ctx nexists ncmd cond_pre cond_post
+              fuel n scope body v h u = SBDone r out v' h' u' false ->
+  (forall k, reserved table k = false -> v' !! k = v !! k \/ (is_unset scope = true /\ v' !! k = None)) /\
+  (forall k, hasp (s_scope ++ scope) k = false -> v' !! k = v !! k \/ v' !! k = None).
+Proof. exact confined_sound. Qed.
+Print Assumptions C19_confined_sound.
+
+(* ... for the script table of the current tree *)
+Theorem C19_confined_sound_scripts :
+  forall (ustate : Type) (fresh : handles -> str)
+         (store_args : str -> list str -> ustate -> ustate) (drop_handle : str -> ustate -> ustate)
+         (set_ctx : str -> ustate -> str * ustate) (nexists : ustate -> str -> bool)
+         (ncmd : str -> list Runner.instr -> inv -> nat_t ustate)
+         (cond_pre : str -> list Runner.instr -> inv -> vmap -> handles -> ustate -> option result * vmap * handles * ustate)
+         (cond_post : str -> list Runner.instr -> inv -> option bool -> nat_t ustate),
+  frame_hyps ustate ncmd cond_pre cond_post ->
+  forall s fuel n v h u r out v' h' u',
+  In s gen_table ->
+  script_body ustate gen_table fresh store_args drop_handle set_ctx nexists ncmd cond_pre cond_post
+              fuel n (se_scope s) (se_body s) v h u = SBDone r out v' h' u' false ->
+  (forall k, reserved gen_table k = false -> v' !! k = v !! k \/ (is_unset (se_scope s) = true /\ v' !! k = None)) /\
+  (forall k, hasp (se_P s) k = false -> v' !! k = v !! k \/ v' !! k = None).
+Proof. exact confined_sound_gen. Qed.
+Print Assumptions C19_confined_sound_scripts.
+
+(* end to end: ANY script command of the current tree, any arguments, any caller variables, invoked
+   at any depth budget, run to the end with the flag down:
+   every caller variable outside the reserved prefixes is as before (unset: or deleted); nothing is
+   left under the command's own prefix; the argument array is released; there are no more variables
+   than before, so the wrapper's leak check cannot fire and the answer is the answer of the body run
+   on the variables the wrapper prepared *)
+Theorem C19_every_script_command :
+  forall (ustate : Type) (fresh : handles -> str)
+         (store_args : str -> list str -> ustate -> ustate) (drop_handle : str -> ustate -> ustate)
+         (set_ctx : str -> ustate -> str * ustate) (nexists : ustate -> str -> bool)
+         (ncmd : str -> list Runner.instr -> inv -> nat_t ustate)
+         (cond_pre : str -> list Runner.instr -> inv -> vmap -> handles -> ustate -> option result * vmap * handles * ustate)
+         (cond_post : str -> list Runner.instr -> inv -> option bool -> nat_t ustate),
+  frame_hyps ustate ncmd cond_pre cond_post ->
+  forall s fuel n args v h u r v' h' u',
+  In s gen_table ->
+  script_command ustate gen_table fresh store_args drop_handle set_ctx nexists ncmd cond_pre cond_post
+                 fuel n s args v h u = SCDone r v' h' u' false ->
+  (forall k, reserved gen_table k = false -> v' !! k = v !! k \/ (is_unset (se_scope s) = true /\ v' !! k = None)) /\
+  (se_min s <= length args -> forall k, hasp (se_P s) k = true -> v' !! k = None)%nat /\
+  (se_min s <= length args -> forall a0 ar, args = a0 :: ar -> fresh h ∉ h')%nat /\
+  (size v' <= size v)%nat /\
+  ((se_min s <= length args)%nat ->
+   exists o, ev ustate gen_table fresh store_args drop_handle set_ctx nexists ncmd cond_pre cond_post
+                fuel n (se_scope s) (se_body s) 0
+                (alias_start ustate fresh store_args set_ctx s args (start ustate v h u)) = Some o /\
+             r = flow_answer ustate o).
+Proof. exact every_script_command_gen. Qed.
+Print Assumptions C19_every_script_command.
+
+(* when is the flag raised?  Not at a condition site whose received command word is permitted by
+   the check and whose remaining received arguments are inside C09's safe classes ... *)
+Theorem C19_condition_site : forall t scope c args,
+  is_cmd c = true -> forallb safe args = true -> head_ok args = true -> last_ok args = true ->
+  cmd_iok t scope c [] = true ->
+  exists ty, eval_parse (c :: args) = ParsedOk ty /\ iok t scope (cond_instr ty) = true.
+Proof. exact cond_site_ok. Qed.
+Print Assumptions C19_condition_site.
+(* ... and a condition WRITTEN with a literal command word is received with that word in front,
+   command-shaped and permitted (value references are not constrained statically) *)
+Theorem C19_condition_static : forall t scope a r, cond_ok_s t scope (a :: r) = true ->
+  (exists x a', a = x :: a' /\ x = c_dollar) \/
+  ((forall e, bind_args e (a :: r) = a :: bind_args e r) /\ is_cmd a = true /\ cmd_iok t scope a [] = true /\
+   (a = s_not -> cond_ok_s t scope r = true)).
+Proof. exact cond_static_head. Qed.
+Print Assumptions C19_condition_static.
+
+(* the "flag down" hypothesis cannot be dropped: array_concat's own script, over commands that
+   satisfy every frame clause, deletes the caller's variable `is_array` when its loop variable holds
+   "=" (the re-parse of utils/eval.rs turns `is_array =` into an assignment without a command) *)
+Theorem C19_confined_sound_unflagged_refuted :
+  exists ncmd cond_pre cond_post, frame_hyps unit ncmd cond_pre cond_post /\
+  exists s fuel n v r out v' h' u' k x,
+    In s gen_table /\ is_unset (se_scope s) = false /\
+    script_body unit gen_table toy_fresh (fun _ _ u => u) (fun _ u => u) (fun _ u => ([], u)) (fun _ _ => true)
+                ncmd cond_pre cond_post fuel n (se_scope s) (se_body s) v ∅ tt = SBDone r out v' h' u' true /\
+    reserved gen_table k = false /\ v !! k = Some x /\ v' !! k = None.
+Proof. exact confined_sound_unflagged_refuted. Qed.
+Print Assumptions C19_confined_sound_unflagged_refuted.
